@@ -38,8 +38,9 @@ accounted for separately, as the set `Process` returns). -/
 def nodeData (d : EData) : EData := { d with errors := [] }
 
 /-- RFC 7950 7.17 as the repaired library reads it: leaf, leaf-list (no child directory), anydata
-and anyxml nodes cannot be augmented. -/
-def canHaveChildren (d : EData) : Bool := d.hasDir && d.kind != .anydata && d.kind != .anyxml
+and anyxml nodes cannot be augmented, and neither can an rpc / action node itself (its only
+children are `input` and `output`, which can). -/
+def canHaveChildren (d : EData) : Bool := d.hasDir && d.kind != .anydata && d.kind != .anyxml && !d.isRpc
 
 /-- The schema child `k` of node `e`. -/
 def kid (e : Entry) (k : String) : Option Entry :=
